@@ -198,8 +198,21 @@ def r_cb_linear(ctx):
         if f in (R.handler, R.queue_drain, R.apply_step):
             continue
         fires = []
+
+        def is_table(e, f=f):
+            # the table attribute itself, or a local that holds the same dict object at that point (an equality fact)
+            if P.self_attr(e, f.self_name) == R.waitingReply:
+                return True
+            if not isinstance(e, ast.Name) or not any(isinstance(d, ast.Assign) and P.self_attr(d.value, f.self_name) == R.waitingReply
+                                                      and any(isinstance(t, ast.Name) and t.id == e.id for t in d.targets) for d in ast.walk(f.node)):
+                return False
+            fex = U.explorer(ctx, f)
+            fres = U.full_run(ctx, f)
+            nodes = U.nodes_containing(fex.cfg, e)
+            g = ('eq', fex.tb.term(e), fex.tb.term(U.parse_expr('self.%s' % R.waitingReply)))
+            return bool(nodes) and all(fres.must(n_.id, g)[0] for n_ in nodes if fres.reached(n_.id))
         for c in P.calls_in(f):
-            if isinstance(c.func, ast.Subscript) and P.self_attr(c.func.value, f.self_name) == R.waitingReply:
+            if isinstance(c.func, ast.Subscript) and is_table(c.func.value):
                 fires.append(c)
         if not fires:
             continue
@@ -210,7 +223,7 @@ def r_cb_linear(ctx):
             if n.kind == 'stmt' and isinstance(n.ast, ast.Assign) and P.self_attr(n.ast.targets[0], f.self_name) == R.waitingReply:
                 resets.append(n.id)
             if n.kind == 'stmt' and isinstance(n.ast, ast.Expr) and isinstance(n.ast.value, ast.Call) and isinstance(n.ast.value.func, ast.Attribute) \
-                    and n.ast.value.func.attr == 'clear' and P.self_attr(n.ast.value.func.value, f.self_name) == R.waitingReply:
+                    and n.ast.value.func.attr == 'clear' and is_table(n.ast.value.func.value):
                 resets.append(n.id)
         fn = U.node_containing(cfg, fires[0])
         reach = cfg.reachable_from(fn.id, avoid=resets, follow_exc=False)
